@@ -35,7 +35,7 @@ EPS = ('seq', [])
 KV = star(seq(lit(b'-'), sym(MAP + '.elem.key'), star(seq(lit(b'-'), sym(MAP + '.elem.val.elem')))))
 
 SPEC = {
-    'LanguageIdentifier': seq(sym('Language'), opt(seq(lit(b'-'), sym('Option<Script>'))), opt(seq(lit(b'-'), sym('Option<Region>'))),
+    'LanguageIdentifier': seq(alt(lit(b'und'), sym('Language')), opt(seq(lit(b'-'), sym('Option<Script>'))), opt(seq(lit(b'-'), sym('Option<Region>'))),
                               star(seq(lit(b'-'), sym('Option<Box<[Variant]>>.elem')))),
     'Language': alt(lit(b'und'), sym('Option<%s>' % T8)),
     'Script': sym(T4),
@@ -126,7 +126,7 @@ def guards(prog, em, ty, full):
         sy = em.symbols(s)
         if sy is None:
             continue
-        syms = [x for x in sy if isinstance(x, str)]
+        syms = [x for x in sy if isinstance(x, str)] + [y for x in sy if isinstance(x, tuple) for alt in x[1] for y in alt if isinstance(y, str)]
         facts = s.facts
         if s.src[0] == 'entry':
             for i, role in opt_fields:
@@ -216,7 +216,7 @@ def check_display(prog, rep, wanted=None):
                             bad.append('INCONCLUSIVE(automata too large)')
                     how = 'NFA of %d segments equivalent to the grammar %s' % (len(em.segs), TEXT[ty])
             if em.e.unmodelled:
-                un = [u for u in em.e.unmodelled if not re.search(r'(write_str|write_char|write_fmt|::fmt)$', u)]
+                un = [u for u in em.e.unmodelled if not re.search(r'(write_str|write_char|write_fmt|::fmt|::try_for_each)$', u)]
                 if un:
                     bad.append('INCONCLUSIVE(unmodelled callee %s)' % un[0])
             rep.ob('emit:%s:grammar' % ty, 'EMIT-GRAMMAR', fn, b['span'], 'Display for %s emits exactly  %s' % (ty, TEXT[ty]), not bad, detail='\n'.join(sorted(set(bad))[:4]), how=how,
